@@ -17,7 +17,8 @@ RULE = (
     "(sign-convention independent); (2) real sinusoid through `ps`: ratio to the on-frequency ps <= -(P-1) dB + "
     "6.02 dB (two images add at most in amplitude; strict -(P-1) dB when the image term computed from the specified "
     "window is negligible). Detrend order -1 (the property concerns the window); orders 0-2 are exercised with "
-    "both frequencies at least 2 main lobes + 2 bins from DC. Non-trivial: offset within 3 main lobes (first side "
+    "both frequencies at least 2 main lobes + 2 bins from DC. In 3 of 5 cases an unrelated analyzer with another window/psll/order is built and used (or a module-level wrapper is "
+    "called) after the analyzers under test were constructed. Non-trivial: offset within 3 main lobes (first side "
     "lobes) or P>=150 (numerical floor)."
 )
 ASSUMPTIONS = [
